@@ -72,9 +72,13 @@ class SearchSpace:
         self._param_grid: list[NDArray[np.float64]] = []
         self._space_size = 1
         for i in range(self.dims):
+            # the small margin keeps the upper bound in the grid; for large bounds it must
+            # not be lost to rounding
+            upper_bound = parameters_bounds[1][i]
+            grid_stop = max(upper_bound + 0.0000001, np.nextafter(upper_bound, np.inf))
             new_col: NDArray[np.float64] = np.arange(
                 parameters_bounds[0][i],
-                parameters_bounds[1][i] + 0.0000001,
+                grid_stop,
                 parameters_precision[i],
                 dtype=np.float64,
             )
